@@ -403,7 +403,18 @@ func (w *World) rootCalleesThroughWrappers(c ssa.CallInstruction) []*ssa.Functio
 			}
 		}
 	}
+	// A carrier wrapper never wraps itself: calls through its embedded stream go to the raw gRPC stream,
+	// not back into a wrapper (type-based call graphs cannot see that).
+	fromWrapper := false
+	if p := c.Parent(); p.Signature.Recv() != nil && w.isCarrierType(p.Signature.Recv().Type()) && c.Common().IsInvoke() {
+		if _, base, ok := loadedField(c.Common().Value); ok && len(p.Params) > 0 && stripConv(base) == ssa.Value(p.Params[0]) {
+			fromWrapper = true
+		}
+	}
 	for _, f := range cands {
+		if fromWrapper && f.Signature.Recv() != nil && w.isCarrierType(f.Signature.Recv().Type()) {
+			continue
+		}
 		if f.Synthetic != "" && f.Blocks != nil && !w.inRoot(f) {
 			// wrapper: follow its single static call
 			allInstrs(f, func(in ssa.Instruction) {
